@@ -3,6 +3,7 @@
 package props
 
 import (
+	"strconv"
 	"fmt"
 	"math/rand/v2"
 	"strings"
@@ -30,7 +31,7 @@ func init() {
 				Rule: "case = a string s or a list ss. Exhaustive: every single byte 1..255 alone and embedded in four positions; every string of length <= 3 (<= 4 thorough) over a 24-byte alphabet of every shell metacharacter, both quotes, backslash, blank, tab, newline, glob/comment/tilde/assignment characters, two plain letters and a two-byte non-ASCII rune; every rune U+0080..U+FFFF (and a stride of the supplementary planes) alone, at the start of a word and of a list, plus byte-order marks, '#!', CR LF, escape sequences and option-like words in first position; a position sweep (one byte of every value at every offset of an otherwise plain word of every length 1..40 and around 64/128/4096; pairs of special characters at every two offsets up to length 26); strings of 4090..70000 bytes around common buffer sizes (quoted spans longer than 4096 and 65536 bytes); random lists of 0..4 such strings (incl. the empty string and the empty list) and random byte strings up to 40 bytes incl. invalid UTF-8. " +
 					"Per string: Split(Quote(s)) == [s], the independent scanner (special byte only inside single quotes or after a backslash; unquoting gives s), and dash + 'bash +B' evaluating 'emit Quote(s)' in a directory with bait files (a b ab [a] x=y ~ #a ...) and HOME set; per list: Split(Join(ss)) == ss && complete, and the shells on Join(ss). Quote and Join calls are interleaved and every result is kept and re-verified at the end (pool aliasing); under -race 8 goroutines do the same concurrently. " +
 					"distinct = the string/list itself (enumerated; random ones by hash); non-trivial = it contains a byte that needs protection, or is empty",
-				Required:     []string{"strings_checked", "lists_checked", "scanner_checks", "shell_words_dash", "shell_words_bash", "kept_results_rechecked", "concurrent_calls", "all_single_bytes", "long_strings", "rune_sweep_strings", "position_sweep_strings"},
+				Required:     []string{"strings_checked", "lists_checked", "scanner_checks", "shell_words_dash", "shell_words_bash", "kept_results_rechecked", "concurrent_calls", "all_single_bytes", "long_strings", "rune_sweep_strings", "position_sweep_strings", "huge_strings"},
 				Exhaustive:   true,
 				Assumptions:  []string{"dash and bash (+B, LC_ALL=C) as installed are the POSIX shells consulted", "strings containing NUL are not passed to the shells"},
 				CoverPkgs:    []string{"github.com/creachadair/mds/shell"},
@@ -427,6 +428,39 @@ func runC15(c *fw.Ctx) {
 		c.Evals(n)
 		c.SeenEnum(n)
 		m.recheck(rig)
+	}
+	// huge strings: 24 MiB (6 MiB in the 32-bit build) made of one kind of
+	// character that needs protection, or of alternating runs: whatever the
+	// functions do per such character (recursion, repeated copying) is
+	// multiplied by millions
+	if c.Flavour != "race" && c.Flavour != "cover" && c.Block < 4 && c.Begin(idx+730000+c.Block) {
+		n := 24 << 20
+		if strconv.IntSize == 32 {
+			n = 6 << 20
+		}
+		unit := []string{"'", "a'", " ", "$x "}[c.Block]
+		s := strings.Repeat(unit, n/len(unit))
+		c.Call("shell.Quote / Join / Split on %d bytes of %q repeated", len(s), unit)
+		ok, pv, stack := fw.Try(func() {
+			q := shell.Quote(s)
+			fs, complete := shell.Split(q)
+			if !complete || len(fs) != 1 || fs[0] != s {
+				c.Fail(map[string]any{"s": fmt.Sprintf("%q repeated to %d bytes", unit, len(s))}, "Split(Quote(s)) returns %d fields (complete=%v), want the single field s", len(fs), complete)
+				return
+			}
+			if w, unp, okq := unquoteRef(q); !okq || unp != 0 || w != s {
+				c.Fail(map[string]any{"s": fmt.Sprintf("%q repeated to %d bytes", unit, len(s))}, "Quote(s) does not unquote to s by the shell's rules (well-formed=%v, unprotected=%q)", okq, string(unp))
+				return
+			}
+			j := shell.Join([]string{"pre", s, "post"})
+			if fs, complete := shell.Split(j); !complete || len(fs) != 3 || fs[1] != s {
+				c.Fail(map[string]any{"ss": fmt.Sprintf("[pre, %q repeated to %d bytes, post]", unit, len(s))}, "Split(Join(ss)) returns %d fields (complete=%v)", len(fs), complete)
+			}
+		})
+		if !ok {
+			c.FailKind("panic", map[string]any{"s": fmt.Sprintf("%q repeated to %d bytes", unit, len(s))}, "panic: %v\n%s", pv, stack)
+		}
+		c.Add("huge_strings", 1)
 	}
 	// random lists and random byte strings
 	nr := c.Pick(1500, 120000)
